@@ -77,7 +77,7 @@ func c07Node() *node.Node {
 		Addrs:  []string{"0x00000000000000000000000000000000000000a1", "0x00000000000000000000000000000000000000a2", "0x00000000000000000000000000000000000000a3"},
 		Events: []EventSpec{{Event: transferEvent()}}}
 	n := node.New("c07", 7, p.Seed, MakeFiller(p, "c07"))
-	n.Grow(16)
+	n.Grow(40)
 	return n
 }
 
@@ -1095,6 +1095,26 @@ func c07Init() {
 			bases = append(bases, &C07Case{Needs: ns})
 		}
 		bases = append(bases, &C07Case{Needs: c07NeedSets[0], Addrs: []string{"0x00000000000000000000000000000000000000a1"}})
+		// long ranges (more blocks than any small chunk size): the
+		// link-breaking kinds at every position of the range
+		for _, b := range bases {
+			if ff := b.filter(); !(ff.UseBlocks || ff.UseHeaders) {
+				continue
+			}
+			for _, limit := range []uint64{11, 21} {
+				base := *b
+				base.Start, base.Limit = 3, limit
+				c0 := base
+				c07Cases = append(c07Cases, &c0)
+				for _, kind := range []string{"break_parent", "break_hash", "renumber", "swap", "null"} {
+					for e := 0; e < int(limit); e++ {
+						c := base
+						c.Corr = []C07Corr{{Exch: 0, Kind: kind, Elem: e, Arg: e % 3}}
+						c07Cases = append(c07Cases, &c)
+					}
+				}
+			}
+		}
 		for _, b := range bases {
 			for _, start := range []uint64{1, 7} {
 				for limit := uint64(1); limit <= 4; limit++ {
